@@ -120,6 +120,8 @@ pub(crate) struct LiveEvents<'a> {
     /// Set once a reader error has been reported: the input is truncated from there on, so
     /// error recovery must not resynchronise on whatever the parser still makes of it.
     io_failed: std::cell::Cell<bool>,
+    /// A syntax error met while skipping the rest of a failed document; returned by the next pull.
+    pending_error: Option<Error>,
 }
 
 /// A single alias-replay stack frame (one active `*alias` expansion).
@@ -195,6 +197,7 @@ impl<'a> LiveEvents<'a> {
 
             error,
             io_failed: std::cell::Cell::new(false),
+            pending_error: None,
         }
     }
 }
@@ -245,6 +248,7 @@ impl<'a> LiveEvents<'a> {
             // Error field is provided but for string, nothing is ever reported
             error: Rc::new(RefCell::new(None)),
             io_failed: std::cell::Cell::new(false),
+            pending_error: None,
         }
     }
 
@@ -261,6 +265,9 @@ impl<'a> LiveEvents<'a> {
     ///
     /// Returns Some(event) when an event is produced, or Ok(None) on true EOF.
     fn next_impl(&mut self) -> Result<Option<Ev<'a>>, Error> {
+        if let Some(err) = self.pending_error.take() {
+            return Err(err);
+        }
         // 1) Serve from injected buffers first (alias replay)
         //
         // Important subtlety: we keep an exhausted injection frame on the stack until
@@ -809,11 +816,22 @@ impl<'a> LiveEvents<'a> {
         }
 
         // Pull raw events from the parser until we see DocumentStart or EOF
+        let mut past_document_end = false;
         while let Some(item) = self.parser.next() {
-            let Ok((raw, span)) = item else {
-                // Syntax error while skipping; treat as EOF. If the reader failed while we were
-                // skipping, report "there is more" so that the next pull surfaces that error.
-                return self.error.borrow().is_some();
+            let (raw, span) = match item {
+                Ok(x) => x,
+                Err(scan_error) => {
+                    // Syntax error while skipping: the stream cannot be read any further. Inside
+                    // the failed document that is the end of it (its failure has been reported).
+                    // Past its end the error belongs to what follows and must not vanish - the
+                    // caller would see a stream that simply ends - so keep it for the next pull
+                    // (a reader failure met while skipping takes precedence there).
+                    if past_document_end {
+                        self.pending_error = Some(Error::from_scan_error(scan_error));
+                        return true;
+                    }
+                    return self.error.borrow().is_some();
+                }
             };
             let location = location_from_span(&span);
             self.last_location = location;
@@ -833,6 +851,7 @@ impl<'a> LiveEvents<'a> {
                     // End of current document; reset state and continue looking for next
                     self.reset_document_state();
                     self.produced_any_in_doc = false;
+                    past_document_end = true;
                 }
                 Event::StreamEnd => {
                     // End of stream (or a reader error that the parser saw as end of input:
